@@ -58,7 +58,7 @@ def strategy(date, ctx):
     def s(draw):
         cfg = {
             "ost": draw(st.booleans()),
-            "hat_kinder": draw(st.booleans()),
+            "n_kids": draw(st.sampled_from([0, 0, 1, 2, 3, 5, 8, 10])),
             "alter": draw(st.sampled_from([18, 22, 23, 30, 45, 60, 64])),
             "step": draw(st.sampled_from([2.5, 5.0, 7.5] if ctx["tier"] == "quick" else [0.5, 1.0, 2.5])),
             "hours": draw(st.sampled_from([10.0, 20.0, 40.0])),
@@ -99,7 +99,7 @@ def build(date, cfg):
     cols["jahr_renteneintr"][:] = date.year - cfg["alter"] + 67
     cols["monat_renteneintr"][:] = 1
     cols["wohnort_ost"][:] = cfg["ost"]
-    cols["ges_pflegev_hat_kinder"][:] = cfg["hat_kinder"]
+    cols["ges_pflegev_hat_kinder"][:] = cfg["n_kids"] > 0
     cols["bruttolohn_m"] = wages
     cols["bruttolohn_vorj_m"] = wages.copy()
     cols["arbeitsstunden_w"][:] = cfg["hours"]
@@ -108,6 +108,9 @@ def build(date, cfg):
     cols["wohnfläche_hh"][:] = 50.0
     cols["bruttokaltmiete_m_hh"][:] = 400.0
     df = pd.DataFrame(cols)
+    # number of children under 25 (relevant for long-term care from 2023-07-01): supplied as data in
+    # place of its computation from the parent pointers, which the interface permits (C05)
+    df["ges_pflegev_anz_kinder_bis_24"] = np.full(n, int(cfg["n_kids"]), dtype="int64")
     return df, {"mini": float(mini), "midi": midi, "c_rv": c_rv, "c_kv": c_kv}
 
 
@@ -183,7 +186,7 @@ class _Cfg(dict):
     archetypes = ()
 
     def classes(self):
-        return {f"ost={self['ost']}", f"hat_kinder={self['hat_kinder']}", f"alter={self['alter']}"}
+        return {f"ost={self['ost']}", f"n_kids={self['n_kids']}", f"alter={self['alter']}"}
 
 
 _s = strategy
